@@ -364,6 +364,9 @@ func runProperty(repo, verif, prop, tier, only string, seed uint64, nj int, skip
 		}
 	}
 	seenLine := map[string]bool{}
+	if violations > 0 {
+		exit = 1 // a replayed violation stands, whatever else was inconclusive
+	}
 	for _, l := range outLines {
 		if !seenLine[l] {
 			fmt.Println(l)
